@@ -225,12 +225,12 @@ def mwbm_contract(from_nodes, to_nodes, get_edges):
     if LSA_MEMO is not None:
         key = tuple(tuple(to_z3_int(x).get_id() if builtins.isinstance(x, SInt) else ('c', x) for x in row) for row in w)
         if key in LSA_MEMO:
-            pick = LSA_MEMO[key]
+            pick = LSA_MEMO[key][0]
             return {i: (j, w[i][j]) for i, j in pick}
     ri, ci = lsa_contract(w)
     pick = list(zip(ri, ci))
     if key is not None:
-        LSA_MEMO[key] = pick
+        LSA_MEMO[key] = (pick, w)      # w pins the z3 terms: AST ids are only unique among live terms
     return {i: (j, w[i][j]) for i, j in pick}
 
 
